@@ -360,17 +360,29 @@ class Intervals:
         if r_ is None:
             return None
         lo, hi, S, E = r_
-        if strip_casts(S) != tb:
+
+        def args_of(t, fn):
+            t = strip_casts(t)
+            if t[0] == 'call' and t[1].split('::')[-1] == fn and t[1].startswith(('std::cmp::', 'core::cmp::')) and len(t[2]) == 2:
+                return [strip_casts(a) for a in t[2]]
+            return [t]
+        # the range may have been clipped: v in max(S0, _) .. min(S0 + X, _) still gives 0 <= v - S0 < X
+        starts = args_of(S, 'max')
+        ends = args_of(E, 'min')
+        if tb not in starts:
             return None
-        Es = strip_casts(E)
-        if Es[0] == 'bin' and Es[1] == 'Add':
-            for x, y in ((Es[2], Es[3]), (Es[3], Es[2])):
-                if strip_casts(x) == tb:
-                    cs, inner = casts_on(y)
-                    if cs:
-                        tr = ty_range(cs[-1][0])
-                        if tr is not None:
-                            return (0, max(0, tr[1] - 1))
+        clipped = len(starts) > 1 or len(ends) > 1
+        for Es in ends:
+            if Es[0] == 'bin' and Es[1] == 'Add':
+                for x, y in ((Es[2], Es[3]), (Es[3], Es[2])):
+                    if strip_casts(x) == tb:
+                        cs, inner = casts_on(y)
+                        if cs:
+                            tr = ty_range(cs[-1][0])
+                            if tr is not None:
+                                return (0, max(0, tr[1] - 1))
+        if clipped:
+            return None
         return (0, max(0, hi - lo)) if hi >= lo else None
 
     def rvalue(self, rv, stack, ty, bb=None):
@@ -426,6 +438,8 @@ class Intervals:
             return (min(args[0][0], args[1][0]), min(args[0][1], args[1][1]))
         if name in ('std::cmp::Ord::max', 'core::cmp::Ord::max', 'std::cmp::max', 'core::cmp::max') and len(args) == 2 and all(args):
             return (max(args[0][0], args[1][0]), max(args[0][1], args[1][1]))
+        if name in ('std::cmp::Ord::clamp', 'core::cmp::Ord::clamp') and len(args) == 3 and args[1] is not None and args[2] is not None:
+            return (args[1][0], max(args[1][0], args[2][1]))
         if name in ('std::convert::From::from', 'std::convert::Into::into') and args and args[0] is not None:
             tr = ty_range(ty)
             if tr and tr[0] <= args[0][0] and args[0][1] <= tr[1]:
